@@ -75,7 +75,29 @@ func genCompLine(t *rapid.T, spec *ProgSpec) string {
 		}
 	}
 	last := ""
-	switch rapid.IntRange(0, 5).Draw(t, "cl_last") {
+	switch rapid.IntRange(0, 7).Draw(t, "cl_last") {
+	case 6, 7:
+		// value completion after --name= for an option that has values to offer (drawn by construction: the
+		// generic case below reaches it too rarely)
+		var withVals []string
+		for _, k := range lv.VisibleKeys() {
+			if k != "-" && len(lv.Visible[k].Spec.Valid)+len(lv.Visible[k].Spec.Suggested) > 0 {
+				withVals = append(withVals, k)
+			}
+		}
+		if len(withVals) > 0 {
+			k := rapid.SampledFrom(withVals).Draw(t, "cl_vkey")
+			vs := append(append([]string{}, lv.Visible[k].Spec.Valid...), lv.Visible[k].Spec.Suggested...)
+			v := rapid.SampledFrom(vs).Draw(t, "cl_vval")
+			cut := 0
+			if rapid.Bool().Draw(t, "cl_vpart") {
+				cut = rapid.IntRange(0, len(v)).Draw(t, "cl_vcut2")
+				for !isRuneBoundary(v, cut) {
+					cut--
+				}
+			}
+			last = "--" + k + "=" + v[:cut]
+		}
 	case 0:
 		last = ""
 	case 1:
